@@ -75,7 +75,9 @@ func c01Params(c *vCase) GossipSubParams {
 	p.Dout = 0
 	p.Dlazy = c.Range(2, 4)
 	p.HistoryLength, p.HistoryGossip = 6, 3
-	p.PruneBackoff = 3 * time.Second
+	// with a long backoff a node pruned by an over-subscribed neighbour stays outside every mesh for many heartbeats
+	// (its mesh may be empty) and is served by gossip alone during the judged window
+	p.PruneBackoff = []time.Duration{3 * time.Second, 3 * time.Second, 15 * time.Second, 25 * time.Second}[c.Intn(4)]
 	p.UnsubscribeBackoff = time.Second
 	p.FanoutTTL = 10 * time.Second
 	return p
@@ -243,6 +245,15 @@ func TestVerifC01Deliver(t *testing.T) {
 			cn.par = c01Params(c)
 			N := c.Range(2, 12)
 			mix := []string{"gossipsub", "floodsub", "randomsub", "mixed", "gossipsub", "mixed"}[c.Intn(6)]
+			// 15 %: a gossipsub star whose hub has between Dhi and Dlo+Dlazy topic peers: the hub keeps cutting its mesh back
+			// to D, and the leaves it pruned (their only neighbour is the hub, their mesh is empty while the backoff lasts)
+			// are served by IHAVE / IWANT alone
+			starMax := min(cn.par.Dlo+cn.par.Dlazy, RandomSubD)
+			star := c.Chance(0.15) && cn.par.Dhi <= starMax
+			if star {
+				N = c.Range(cn.par.Dhi, starMax) + 1
+				mix = "gossipsub"
+			}
 			for i := 0; i < N; i++ {
 				r := mix
 				if mix == "mixed" {
@@ -265,7 +276,13 @@ func TestVerifC01Deliver(t *testing.T) {
 				target = map[[2]int]bool{}
 				deg := make([]int, N)
 				perm := c.R.Perm(N)
-				for k := 1; k < N; k++ {
+				if star {
+					for k := 1; k < N; k++ {
+						target[[2]int{0, k}] = true
+					}
+					perm = nil
+				}
+				for k := 1; k < len(perm); k++ {
 					// attach to an earlier node with spare degree
 					var cand []int
 					for _, u := range perm[:k] {
@@ -285,7 +302,7 @@ func TestVerifC01Deliver(t *testing.T) {
 					deg[u]++
 					deg[perm[k]]++
 				}
-				for e, extra := 0, c.Range(0, N); e < extra; e++ {
+				for e, extra := 0, c.Range(0, N); e < extra && !star; e++ {
 					a, b := c.Intn(N), c.Intn(N)
 					if a == b {
 						continue
@@ -311,6 +328,9 @@ func TestVerifC01Deliver(t *testing.T) {
 					case 3:
 						x.wantSubs, x.wantRelay = 1, true
 					default:
+						x.wantSubs = 1
+					}
+					if star && x.wantSubs == 0 && !x.wantRelay {
 						x.wantSubs = 1
 					}
 					interested[i] = x.wantSubs > 0 || x.wantRelay
@@ -387,6 +407,16 @@ func TestVerifC01Deliver(t *testing.T) {
 			}
 			// ---- settle: backoffs expire and are swept (every 15 ticks), meshes repair, announcements propagate
 			vSettle(cn.par.PruneBackoff + 2*time.Second + 16*cn.hb + 3*cn.hb)
+			if star {
+				// expired backoff entries are swept every 15th heartbeat; the pruned leaves graft again right after it and the
+				// hub cuts back one heartbeat later: the judged window is placed in the quiet stretch that follows
+				for k := 0; k < 20; k++ {
+					if t := cn.nodes[0].nd.Snap().Ticks % 15; t >= 3 && t <= 4 {
+						break
+					}
+					vSettle(cn.hb)
+				}
+			}
 			// early messages must not be confused with the judged ones
 			base := map[*c01Sub]int{}
 			for _, x := range cn.nodes {
@@ -442,6 +472,15 @@ func TestVerifC01Deliver(t *testing.T) {
 				}
 				if x.interested() && len(s.Mesh["t"]) == 0 && len(s.Topics["t"]) > 0 {
 					c.Count("empty_mesh_nodes", 1)
+					allGS := true
+					for p := range s.Topics["t"] {
+						if !GossipSubDefaultFeatures(GossipSubFeatureMesh, s.Peers[p]) {
+							allGS = false
+						}
+					}
+					if allGS {
+						c.Count("nodes_served_by_gossip_alone", 1)
+					}
 				}
 			}
 			// ---- "the meshes have settled": no GRAFT / PRUNE anywhere during the last 5 heartbeats
@@ -480,13 +519,17 @@ func TestVerifC01Deliver(t *testing.T) {
 				if strings.HasPrefix(payload, "REJECT") && err == nil {
 					c.Violatef(map[string]string{"kind": "rejected_publish_no_error"}, "Publish of a message the validator rejects returned nil")
 				}
-				if c.Chance(0.6) {
+				if c.Chance(0.6) && !star {
 					vSettle(time.Duration(N+3) * cn.hb)
 				} else {
 					vSettle(time.Duration(c.Range(1, 300)) * time.Millisecond)
 				}
 			}
-			vSettle(time.Duration(N+4) * cn.hb)
+			if star {
+				vSettle(4 * cn.hb) // one gossip round trip and slack; the next sweep is at least five heartbeats away
+			} else {
+				vSettle(time.Duration(N+4) * cn.hb)
+			}
 			if n := meshEvents(pubStart); n > 0 {
 				c.Inconclusive("meshes changed while messages were in flight (%d GRAFT/PRUNE events)", n)
 				return
